@@ -307,3 +307,75 @@ Section DF.
     - set (c := A T r j) in *. set (u := qn j r * (t - qn j T)) in *. nra.
   Qed.
 End DF.
+(* ---- positivity without rates >= 0: exactly the accrual factors have to be positive (negative rates above -1/accrual) ---- *)
+Definition factors_pos (T r : list Q) : Prop :=
+  0 < 1 + qn 0 r * qn 0 T /\ forall k, (S k < length T)%nat -> 0 < fac T r k.
+
+Lemma ss_lt_length T t : T <> [] -> t <= last T 0 -> (searchsorted_nat T t < length T)%nat.
+Proof.
+  intros Hne Hlast. destruct (Nat.lt_ge_cases (searchsorted_nat T t) (length T)) as [H|H]; [assumption|].
+  exfalso. assert (Hl : (length T - 1 < searchsorted_nat T t)%nat) by (destruct T; [congruence | simpl in *; lia]).
+  pose proof (ss_below T t _ Hl) as Hb.
+  assert (Hle : last T 0 = qn (length T - 1) T).
+  { clear -Hne. induction T as [|x T IH]; [congruence|]. destruct T as [|y T]; [reflexivity|].
+    change (last (y :: T) 0 = qn (length (y :: T) - 0) (x :: y :: T)). rewrite IH by discriminate.
+    simpl. rewrite Nat.sub_0_r. reflexivity. }
+  rewrite Hle in Hlast. lra.
+Qed.
+
+Lemma prodfac_pos T r : (forall k, (S k < length T)%nat -> 0 < fac T r k) -> forall n, (n < length T)%nat -> 0 < prodfac T r n.
+Proof.
+  intros Hf. induction n as [|n IH]; intro Hn; [simpl; lra|].
+  cbn [prodfac]. specialize (IH ltac:(lia)). specialize (Hf n Hn). nra.
+Qed.
+
+(* a linear factor that is positive at both ends of an interval is positive inside *)
+Lemma linear_pos c u w : 0 <= u -> u <= w -> 0 < 1 + c * w -> 0 < 1 + c * u.
+Proof. intros H0 Hu Hw. destruct (Qlt_le_dec c 0) as [Hc|Hc]; nra. Qed.
+
+Theorem aux_pos_general T r t : increasing T -> 0 <= qn 0 T -> T <> [] -> factors_pos T r ->
+  0 <= t -> t <= last T 0 -> 0 < aux T r t.
+Proof.
+  intros Hinc H0 Hne [Hf0 Hf] Ht Hl.
+  pose proof (ss_lt_length T t Hne Hl) as Hp. pose proof (ss_at T t Hp) as Hat.
+  unfold aux. destruct (searchsorted_nat T t) as [|j] eqn:Ep.
+  - apply (linear_pos _ t (qn 0 T)); assumption.
+  - assert (Hb : qn j T < t) by (apply ss_below; rewrite Ep; lia).
+    assert (HA : 0 < A T r j).
+    { unfold A. pose proof (prodfac_pos T r Hf j ltac:(lia)). nra. }
+    assert (HL : 0 < 1 + qn j r * (t - qn j T)).
+    { apply (linear_pos _ _ (qn (S j) T - qn j T)); [lra | lra |]. exact (Hf j Hp). }
+    nra.
+Qed.
+
+Theorem df_positive_general T r t : increasing T -> 0 <= qn 0 T -> T <> [] -> factors_pos T r ->
+  0 <= t -> t <= last T 0 -> 0 < forward_df T r t.
+Proof.
+  intros Hinc H0 Hne Hf Ht Hl. rewrite forward_df_aux.
+  pose proof (aux_pos_general T r t Hinc H0 Hne Hf Ht Hl). apply Qlt_shift_div_l; lra.
+Qed.
+
+(* non-negative rates are a special case *)
+Lemma nonneg_factors_pos T r : increasing T -> nonneg r -> 0 <= qn 0 T -> factors_pos T r.
+Proof.
+  intros Hinc Hr H0. split.
+  - pose proof (Hr 0%nat). nra.
+  - intros k Hk. pose proof (fac_ge_1 T r k Hinc Hr Hk). lra.
+Qed.
+
+(* and the condition is sharp: a non-positive accrual factor makes the discount factor at that tenor non-positive (or 1/0 = 0 in Q) *)
+Theorem df_nonpositive_factor T r j : increasing T -> (S j < length T)%nat -> 0 < A T r j -> fac T r j <= 0 ->
+  forward_df T r (qn (S j) T) <= 0.
+Proof.
+  intros Hinc Hj HA Hf. rewrite forward_df_aux, (aux_at_tenor T r (S j) Hinc Hj).
+  assert (E : A T r (S j) == A T r j * fac T r j) by (unfold A; cbn [prodfac]; ring).
+  assert (Hle : A T r (S j) <= 0) by (rewrite E; nra).
+  destruct (Qeq_dec (A T r (S j)) 0) as [Ez|Hnz].
+  - rewrite Ez. unfold Qdiv. rewrite Qmult_1_l. vm_compute. discriminate.
+  - assert (Hlt : A T r (S j) < 0) by (destruct (Qlt_le_dec (A T r (S j)) 0); [assumption | exfalso; apply Hnz; lra]).
+    unfold Qdiv. rewrite Qmult_1_l.
+    assert (Hi : / A T r (S j) < 0).
+    { assert (0 < / - A T r (S j)) by (apply Qinv_lt_0_compat; lra).
+      assert (Ei : / - A T r (S j) == - / A T r (S j)) by (field; assumption). lra. }
+    lra.
+Qed.
